@@ -93,3 +93,43 @@ theorem C14_host_suppressed (prev : AReq) (nm : Method) (uri : Uri) (sameHost : 
 
 example : keepHostHeader { scheme := "http", host := "a", port := none, path := "/", query := none }
     { scheme := "http", host := "b", port := none, path := "/x", query := none } = false := by decide
+
+/-! ## Structural facts about the resolution function, for every base and every Location string -/
+
+/-- **C14 (scheme of the target).** Whatever the Location says, the URI a redirect resolves to has the
+    scheme of the current URI or one of `http` / `https` written in the Location itself: resolution never
+    produces a third scheme. -/
+theorem C14_resolve_scheme (base : Uri) (loc : String) (u : Uri) (h : resolve base loc = .ok u) :
+    u.scheme = base.scheme ∨ u.scheme = "http" ∨ u.scheme = "https" := by
+  unfold resolve at h
+  simp only [] at h
+  repeat' split at h
+  all_goals (first | (simp at h; done) | skip)
+  all_goals (simp only [Res3986.ok.injEq] at h; subst h; first | (simp_all; done) | grind)
+
+/-- **C14 (a target always has a path).** The resolved URI never has an empty path: an empty one is `/`,
+    so the request line written for the redirected request always has a target. -/
+theorem C14_resolve_path (base : Uri) (loc : String) (u : Uri) (h : resolve base loc = .ok u)
+    : u.path.isEmpty = false := by
+  unfold resolve at h
+  simp only [] at h
+  repeat' split at h
+  all_goals (first | (simp at h; done) | skip)
+  all_goals (simp only [Res3986.ok.injEq] at h; subst h; first | (simp_all; done) | decide | grind)
+/-- **C14 (a relative Location stays on the host).** A Location without scheme and without authority
+    (path-absolute, path-relative, query-only or empty) resolves to the scheme and the (lower-cased) host
+    of the current URI — only a Location that names an authority can move the exchange to another host. -/
+theorem C14_resolve_relative (base : Uri) (loc : String) (u : Uri) (h : resolve base loc = .ok u)
+    (hs : (parseRef loc).scheme = none) (ha : (parseRef loc).auth = none) :
+    u.scheme = base.scheme ∧ u.host = base.host.toLower := by
+  unfold resolve at h
+  simp only [hs, ha] at h
+  repeat' split at h
+  all_goals (first | (simp at h; done) | skip)
+  all_goals (simp only [Res3986.ok.injEq] at h; subst h; first | (simp_all; done) | grind)
+
+/-- test (compiler-evaluated, not a theorem): the hypotheses are met by an ordinary relative redirect -/
+def c14Base : Uri := { scheme := "http", host := "a.test", port := none, path := "/x/y", query := none }
+#guard (match resolve c14Base "../z?q" with | .ok u => u.scheme == "http" && u.host == "a.test" && u.path == "/z" | _ => false)
+#guard (parseRef "../z?q").scheme == none && (parseRef "../z?q").auth == none
+#guard (match resolve c14Base "https://b.test" with | .ok u => u.scheme == "https" && u.host == "b.test" && u.path == "/" | _ => false)
